@@ -50,4 +50,34 @@ PROPS["C04"] = {
     "level_note": "Trusted: Coq kernel/vm_compute; hand-written Model/Bounds.v validated on explored cases; bounded-list model of circular_buffer; well-formedness predicate WF (Proofs/Bounds.v) as the reading of 'injected state'.",
 }
 
+_RAT = ["sample arithmetic: exact rationals (Coq Q with normalising operations; harness: checked i128 rationals, overflowing cases skipped and counted); floats and integer overflow are not modelled"]
+PROPS["C15"] = {
+    "corr": "Model.Smooth.{diff_step,int_step} vs Differentiate/Integrate::filter, alone and composed through the real Pipe",
+    "rule": "Differentiate<Rat>, Integrate<Rat>, Pipe(Differentiate,Integrate), Pipe(Integrate,Differentiate): all histories over {-1,0,2} up to the tier's length plus seeded random rational histories; non-trivial = at least two samples AND first sample non-zero (Check/C15.v)",
+    "trusted": _RAT, "assumptions": [],
+    "level_text": "Theorems for every history of every length over the rationals: first difference, running sum, and both compositions (x[n]-x[0]; x[n] for n>=1), by induction (telescoping sum); tied to the Rust filters and to the real Pipe composition by differential execution evaluated in Coq.",
+    "level_note": "Trusted: Coq kernel/vm_compute; hand-written Model/Smooth.v validated on explored cases; exact arithmetic.",
+}
+PROPS["C13"] = {
+    "corr": "Model.Smooth.{ema_step,xm_step} vs mean::exp::mean::Mean::filter / median::exp::Median::filter",
+    "rule": "exponential mean with gains {0,1/4,1/2,3/4,1} and exponential median with all 125 gain triples over that grid, all histories over {-1,0,2} of the tier's length, plus seeded random histories with random gains (1/8 of them outside [0,1], where only the recurrence is checked); non-trivial = at least 3 samples, first sample non-zero, not constant (Check/C13.v)",
+    "trusted": _RAT, "assumptions": ["hull/constant clauses: gains in [0,1]"],
+    "level_text": "Theorems for all rational gains and all histories: the recurrences (first output = first sample; EMA step; pre/mid/post cascade with prev = previous output) and, for all gains in [0,1] (0 and 1 included), that every output is a convex combination of the samples seen so far, hence stays in their range and reproduces constants exactly. Proved by closure of convex combinations under mixing and induction over the history.",
+    "level_note": "Trusted: Coq kernel/vm_compute; Model/Smooth.v validated on explored cases; exact arithmetic (float rounding not modelled).",
+}
+PROPS["C14"] = {
+    "corr": "Model.Smooth.ab_step vs observe::alpha_beta::AlphaBeta::filter (outputs and final velocity via IntoGuts; paired run on a*x+b)",
+    "rule": "AlphaBeta<Rat>: (alpha,beta) over {0,1/4,1/2,1,3/2}^2, all histories over {-1,0,2} of the tier's length, each also run on the affinely transformed samples a*x+b, plus seeded random cases; non-trivial = at least 3 samples, not constant (Check/C14.v)",
+    "trusted": _RAT, "assumptions": [],
+    "level_text": "Theorems for all rational alpha, beta and all histories: the recurrence, explicit data-independent weights summing to one (position) by recursion, hence exact constants and equivariance under z -> a*z+b, by induction over the history.",
+    "level_note": "Trusted: Coq kernel/vm_compute; Model/Smooth.v validated on explored cases; exact arithmetic.",
+}
+PROPS["C06"] = {
+    "corr": "Model.Smooth.k_process vs observe::kalman::Kalman::filter (both Filter impls; estimate and covariance via IntoGuts after every sample; division by zero = panic)",
+    "rule": "Kalman<Rat>: convex grid (a=c=1,b=0; r in {0,1/2,1,3}, q in {1/4,1,2}) with all measurement histories over {-1,0,2}; general grid a in {1,1/2,-1,2}, b in {0,1,-1/2}, c in {1,2,-1,1/2,0}, three (r,q) incl. (0,0), both Filter impls; seeded random configurations and histories (length <= 9: the harness's i128 rationals overflow beyond, overflowing cases are skipped and counted); non-trivial = at least 3 samples, no zero divisor, not constant (Check/C06.v)",
+    "trusted": _RAT, "assumptions": ["recursion clauses: c != 0 and P^- c^2 + q != 0 (otherwise the Rust code divides by zero: panic for integers/rationals)", "hull clauses: a = c = 1, b = 0, r >= 0, q > 0"],
+    "level_text": "Theorems for all rational configurations, states and streams: the model's estimate and covariance equal the textbook recursion (base case, one step from any agreeing state, whole streams by induction, under non-zero divisors; a zero divisor is a panic), the measurement-only form is the zero-control form, and for a=c=1,b=0,r>=0,q>0 every estimate is a convex combination of the measurements so far and the covariance stays >= 0 (all r, q, all lengths).",
+    "level_note": "Trusted: Coq kernel/vm_compute; Model/Smooth.v validated on explored cases; textbook recursion Spec/C06.v; exact arithmetic.",
+}
+
 NOT_YET = {}
